@@ -498,6 +498,9 @@ package hclsyntax
 //@ requires e.Op != nil
 //@ ensures marks: forall k iface :: { marked(ret0, k) } marked(exprVal(old(e.Val), ctx), k) ==> marked(ret0, k) || (bareUnknown(ret0) && hasErr(ret1))
 // Index and relative traversal expressions delegate to hcl.Index / Traversal.TraverseRel.
+// verif:func (*RelativeTraversalExpr).Value
+//@ nosafety
+//@ ensures marks: len(ret1) == 0 ==> (forall k iface :: { marked(ret0, k) } marked(exprVal(old(e.Source), ctx), k) ==> marked(ret0, k))
 // verif:func (*IndexExpr).Value
 //@ nosafety
 //@ ensures marks: len(ret1) == 0 ==> (forall k iface :: { marked(ret0, k) } marked(exprVal(old(e.Collection), ctx), k) ==> marked(ret0, k))
